@@ -69,9 +69,12 @@ func (t Templates) ServeHTTP(w http.ResponseWriter, r *http.Request) (int, error
 
 		// pass request up the chain to let another middleware provide us the template
 		code, err := t.Next.ServeHTTP(rb, r)
-		if !rb.Buffered() || code >= 300 || err != nil {
+		if !rb.Buffered() || code >= 300 || (err != nil && code != 0) {
 			return code, err
 		}
+		// code 0 means the handler below has written its response (into our buffer):
+		// it must reach the client even if that handler also reports an error
+		nextErr := err
 
 		// create a new template
 		templateName := filepath.Base(fpath)
@@ -121,7 +124,7 @@ func (t Templates) ServeHTTP(w http.ResponseWriter, r *http.Request) (int, error
 		// use the proper status code, since ServeContent hard-codes 2xx codes...
 		http.ServeContent(rb.StatusCodeWriter(w), r, templateName, modTime, bytes.NewReader(buf.Bytes()))
 
-		return 0, nil
+		return 0, nextErr
 	}
 
 	return t.Next.ServeHTTP(w, r)
